@@ -264,9 +264,9 @@ func ExecWrite(e *engine.EngineFacade, o Op) ExecResult {
 	case "put":
 		// the caller's buffers are its own again once the call has returned:
 		// it overwrites them (what is stored must be the bytes at call time)
-		kb, vb := append([]byte{}, o.Key...), o.Value()
+		kb, vb := SharedBuffer(o.Key, o.Value())
 		err := e.Put(kb, vb)
-		scribbleBytes(kb, vb)
+		scribbleBytes(kb[:cap(kb)])
 		return ExecResult{Err: err}
 	case "del":
 		kb := append([]byte{}, o.Key...)
@@ -278,14 +278,15 @@ func ExecWrite(e *engine.EngineFacade, o Op) ExecResult {
 		for _, s := range o.Sub {
 			switch s.K {
 			case "put":
-				ents = append(ents, &wal.Entry{Type: wal.OpTypePut, Key: append([]byte{}, s.Key...), Value: s.Value()})
+				kb, vb := SharedBuffer(s.Key, s.Value())
+				ents = append(ents, &wal.Entry{Type: wal.OpTypePut, Key: kb, Value: vb})
 			case "del":
 				ents = append(ents, &wal.Entry{Type: wal.OpTypeDelete, Key: append([]byte{}, s.Key...)})
 			}
 		}
 		err := e.ApplyBatch(ents)
 		for _, en := range ents {
-			scribbleBytes(en.Key, en.Value)
+			scribbleBytes(en.Key[:cap(en.Key)], en.Value)
 		}
 		return ExecResult{Err: err}
 	case "txn":
@@ -366,6 +367,20 @@ func ExecWrite(e *engine.EngineFacade, o Op) ExecResult {
 		return res
 	}
 	return ExecResult{Err: fmt.Errorf("not a write op: %s", o.K)}
+}
+
+// SharedBuffer returns copies of key and value cut out of one buffer, as a
+// caller does that assembles a request in a scratch area: the key slice has
+// spare capacity, and the value lies right behind it. (A nil value stays nil.)
+func SharedBuffer(key, value []byte) (k, v []byte) {
+	buf := make([]byte, len(key)+len(value)+32)
+	copy(buf, key)
+	copy(buf[len(key):], value)
+	k = buf[:len(key)]
+	if value != nil {
+		v = buf[len(key) : len(key)+len(value)]
+	}
+	return k, v
 }
 
 var noScribble = os.Getenv("KEVOSIM_NOSCRIBBLE") != ""
